@@ -82,12 +82,12 @@ CLAIMED = {
             "statement-by-statement models of all eight strategy classes, the whole step keeps every connector within its "
             "currently valid limit: greedy/balanced (both sides, with battery support), distributed (limits restored), "
             "schedule, flex_window (balanced unconditional; greedy; needy in exact arithmetic), peak_shaving, "
-            "peak_load_window, balanced_market; theorems named _partial state exactly what they exclude (the draw side with "
-            "V2G-capable vehicles for balanced_market, exact-delivery battery contracts, float rounding of needy "
-            "shares). The loop model and every strategy model are compared bit-for-bit with the "
+            "peak_load_window, balanced_market; theorems named _partial state exactly what they exclude (two vehicles at one "
+            "station for balanced_market, exact-delivery battery contracts, float rounding of needy shares, "
+            "sub-strategies other than greedy/balanced under distributed). The loop model and every strategy model are compared bit-for-bit with the "
             "real code on every step of generated real runs inside this check. Limit = min(rating, latest signal) and "
             "the run-level sentence are additionally decided by an independent oracle on the real outputs; one narrow "
-            "finding is left (peak_load_window at negative SoC). 19 genuine strategy defects were repaired in /repo.",
+            "finding is left (peak_load_window at negative SoC). 21 genuine strategy defects were repaired in /repo.",
             "Lean 4 proof (run-loop monitor + whole-step limit theorems on 8 strategy models) + bit-level Float correspondence of loop and strategy steps on real runs + oracle on real runs",
             "DESIGN.md I.4, §4 C04"),
     "C05": ("Lean theorems: station monitor for every strategy; clamp_power laws (non-negative, <= offered, keeps the "
@@ -228,12 +228,12 @@ CLAIMED = {
             "statement-by-statement models of all eight strategy classes, the whole step keeps every connector within its "
             "currently valid limit: greedy/balanced (both sides, with battery support), distributed (limits restored), "
             "schedule, flex_window (balanced unconditional; greedy; needy in exact arithmetic), peak_shaving, "
-            "peak_load_window, balanced_market; theorems named _partial state exactly what they exclude (the draw side with "
-            "V2G-capable vehicles for balanced_market, exact-delivery battery contracts, float rounding of needy "
-            "shares). The loop model and every strategy model are compared bit-for-bit with the "
+            "peak_load_window, balanced_market; theorems named _partial state exactly what they exclude (two vehicles at one "
+            "station for balanced_market, exact-delivery battery contracts, float rounding of needy shares, "
+            "sub-strategies other than greedy/balanced under distributed). The loop model and every strategy model are compared bit-for-bit with the "
             "real code on every step of generated real runs inside this check. Limit = min(rating, latest signal) and "
             "the run-level sentence are additionally decided by an independent oracle on the real outputs; one narrow "
-            "finding is left (peak_load_window at negative SoC). 19 genuine strategy defects were repaired in /repo.",
+            "finding is left (peak_load_window at negative SoC). 21 genuine strategy defects were repaired in /repo.",
             "Lean 4 proof (run-loop monitor + whole-step limit theorems on 8 strategy models) + bit-level Float correspondence of loop and strategy steps on real runs + oracle on real runs",
             "DESIGN.md I.4, §4 C04"),
     "C05": ("Lean theorems: station monitor for every strategy; clamp_power laws (non-negative, <= offered, keeps the "
@@ -402,12 +402,12 @@ CLAIMED = {
             "statement-by-statement models of all eight strategy classes, the whole step keeps every connector within its "
             "currently valid limit: greedy/balanced (both sides, with battery support), distributed (limits restored), "
             "schedule, flex_window (balanced unconditional; greedy; needy in exact arithmetic), peak_shaving, "
-            "peak_load_window, balanced_market; theorems named _partial state exactly what they exclude (the draw side with "
-            "V2G-capable vehicles for balanced_market, exact-delivery battery contracts, float rounding of needy "
-            "shares). The loop model and every strategy model are compared bit-for-bit with the "
+            "peak_load_window, balanced_market; theorems named _partial state exactly what they exclude (two vehicles at one "
+            "station for balanced_market, exact-delivery battery contracts, float rounding of needy shares, "
+            "sub-strategies other than greedy/balanced under distributed). The loop model and every strategy model are compared bit-for-bit with the "
             "real code on every step of generated real runs inside this check. Limit = min(rating, latest signal) and "
             "the run-level sentence are additionally decided by an independent oracle on the real outputs; one narrow "
-            "finding is left (peak_load_window at negative SoC). 19 genuine strategy defects were repaired in /repo.",
+            "finding is left (peak_load_window at negative SoC). 21 genuine strategy defects were repaired in /repo.",
             "Lean 4 proof (run-loop monitor + whole-step limit theorems on 8 strategy models) + bit-level Float correspondence of loop and strategy steps on real runs + oracle on real runs",
             "DESIGN.md I.4, §4 C04"),
     "C05": ("Lean theorems: station monitor for every strategy; clamp_power laws (non-negative, <= offered, keeps the "
